@@ -26,6 +26,8 @@ HEADER_G = ("From Coq Require Import List ZArith QArith.\nImport ListNotations.\
 SHIM = os.path.join(vlib.VERIF, "tools", "pybind11_shim")
 NAMES = [f"cdist{k}{v}_{m}" for k in ("22", "32") for v in ("", "f", "d") for m in ("eu", "eu2")]
 TOL32, TOL64 = Fr(1, 2 ** 20), Fr(1, 2 ** 48)        # relative bound on generic floats (0 on dyadic inputs)
+KNOWN_F32 = "C19:kernel:ext:float64-strided-input-computed-in-float32"
+KNOWN_AXIS = "C19:kernel:ext:last-axis-length-not-checked"
 LAYOUTS = ["C", "strided", "transposed", "fortran", "reversed", "int", "mixed"]
 
 
@@ -274,11 +276,15 @@ def kernels(ctx, rep):
                 sig = f"C19:kernel:ext:{use['name']}:{v[0]}"
                 if (v[0] == "wrong-value" and use["dt"] == "d" and use["name"][7] == "_" and how not in ("int", "mixed")
                         and obs[0] == "ok" and obs[3] == "float32" and not obs[4]):
-                    sig = "C19:kernel:ext:float64-strided-input-computed-in-float32"
+                    sig = KNOWN_F32
                     known.add(sig)
                 else:
                     flagged.add(len(owners))
                 rep.violate(sig, f"layout={how}: " + v[1] + (f"; result dtype {obs[3]}" if obs[0] == "ok" else ""), rd)
+                if sig == KNOWN_F32:
+                    rep.case(key=None)          # recorded region: judged by the oracle only, not compared with the model
+                    rep.count("kernel:ext:known-finding-region")
+                    continue
             if obs[0] == "ok":
                 rep.case(key=("ke", use["name"], use["dt"], how, json.dumps(use["shape1"]), len(use["b"]), use["exact"], json.dumps(use["a"])[:200]),
                          sample=(dict(rd, a="...", b="...") if n % 150 == 0 else None))
@@ -315,12 +321,16 @@ def grid_inputs(ctx):
                 r2.append(r1[k] + rng.randint(1, 6) * s)            # exact multiple of the spacing
             else:
                 r2.append(r1[k] + rng.randint(0, 40) / 8.0)
+        while math.prod(int((r2[k] - r1[k] + 2 * pad) // s) + 1 for k in range(3)) > 1200:
+            s *= 2                                                  # keep the literal lists small (still dyadic)
         out.append(dict(kind="grid", stream="dyadic", r1=r1, r2=r2, pad=pad, s=s, dtype=rng.choice(["float32", "float64"])))
     for i in range(n // 2):                              # generic decimals (not dyadic): float64 and float32
         s = rng.choice([0.3, 0.7, 1.1, 0.45, 0.9])
         pad = rng.choice([0.0, 0.3, 1.3, 0.05])
         r1 = [round(rng.uniform(-5, 5), 3) for _ in range(3)]
         r2 = [round(r1[k] + rng.uniform(0, 4), 3) for k in range(3)]
+        while math.prod(int((r2[k] - r1[k] + 2 * pad) // s) + 1 for k in range(3)) > 1200:
+            s = round(s * 1.7, 3)
         out.append(dict(kind="grid", stream="generic", r1=r1, r2=r2, pad=pad, s=s, dtype=("float64" if i % 3 else "float32")))
     # empty and inverted boxes: 0 samples on an axis -> empty grid; negative -> numpy raises
     for r1, r2, pad, s in [([0, 0, 0], [-0.5, 1, 1], 0.0, 1.0), ([0, 0, 0], [-1, 1, 1], 0.0, 1.0), ([0, 0, 0], [-3, 1, 1], 0.0, 1.0),
@@ -403,7 +413,7 @@ def run_grid(rd):
 def desc_inputs(ctx):
     rng = ctx.rng
     out = []
-    n = 10 if not ctx.thorough else 120
+    n = 14 if not ctx.thorough else 120
     pent = None
     for i in range(n):
         for kind in ("nearest", "prune", "aso", "aeif", "aif"):
@@ -417,8 +427,13 @@ def desc_inputs(ctx):
             flat = [p for c in coords for p in c]
             lo = [math.floor(min(p[k] for p in flat) * 4) / 4 for k in range(3)]
             hi = [math.ceil(max(p[k] for p in flat) * 4) / 4 for k in range(3)]
-            grid = dict(r1=lo, r2=hi, pad=rng.choice([0.5, 1.0, 1.5]), s=rng.choice([1.0, 1.5, 0.75] if not ctx.thorough else [0.5, 1.0, 1.5, 0.75]),
-                        dtype=("float32" if rng.random() < 0.8 else "float64"))
+            pad = rng.choice([0.5, 1.0, 1.5])
+            cap = 400
+
+            def npts(sp):
+                return math.prod(int((hi[k] - lo[k] + 2 * pad) // sp) + 1 for k in range(3))
+            fits = [sp for sp in (0.5, 0.75, 1.0, 1.25, 1.5, 2.0, 3.0) if npts(sp) <= cap] or [4.0]
+            grid = dict(r1=lo, r2=hi, pad=pad, s=rng.choice(fits[:3]), dtype=("float32" if rng.random() < 0.8 else "float64"))
             rd = dict(kind=kind, stream=("generic" if generic else "dyadic"), coords=coords, elements=[rng.choice(ELEMS) for _ in range(N)],
                       weights=[rng.randint(1, 16) / 8.0 for _ in range(C)], charges=[[rng.randint(-64, 64) / 64.0 for _ in range(N)] for _ in range(C)],
                       grid=grid, weighted=(rng.random() < 0.5))
@@ -610,6 +625,25 @@ def desc_compare(kind, what, obs, ref, amb, g64):
     return None
 
 
+def last_axis_probe(rd):
+    """arrays whose last axis is not 3: the call must raise or agree with the numpy evaluation over all columns.
+    (Only widths > 3 are probed: a narrower row makes the kernel read past the buffer.)"""
+    np = np_()
+    import molli_xt
+    a = np.array(rd["a"], dtype=np.float64)
+    b = np.array(rd["b"], dtype=np.float64)
+    try:
+        r = np.asarray(getattr(molli_xt, rd["name"])(a, b), dtype=np.float64)
+    except Exception:  # noqa
+        return None
+    ref = ((a[:, None, :] - b[None, :, :]) ** 2).sum(-1)
+    ref = ref if rd["name"].endswith("eu2") else np.sqrt(ref)
+    if r.shape != ref.shape or np.abs(r - ref).max() > 1e-9 * (1 + np.abs(ref).max()):
+        return (KNOWN_AXIS, f"{rd['name']} accepts arrays of shape {list(a.shape)} and {list(b.shape)} without an error and returns {r.tolist()}; "
+                f"the distances over all {a.shape[1]} columns are {ref.tolist()} (only the first 3 columns of each row are read)")
+    return None
+
+
 # ------------------------------------------------------------------ the run
 def run(ctx, rep):
     rep.rule = ("a case = one call of the implementation (a kernel registered by the C++ source, built from source; the same kernel in the "
@@ -631,6 +665,14 @@ def run(ctx, rep):
     rep.extra["t_build_props"] = round(time.time() - t0, 1)
     found = False
     terms, owners, flagged, known = kernels(ctx, rep)
+    for name in ("cdist22_eu2", "cdist22d_eu"):
+        rd = dict(kind="last-axis", name=name, a=[[0.0, 0.0, 0.0, 1.0], [1.0, 2.0, 3.0, 4.0]], b=[[0.0, 0.0, 0.0, 3.0]])
+        v = last_axis_probe(rd)
+        rep.case(key=None)
+        rep.count("kernel:ext:last-axis-4")
+        if v:
+            rep.violate(v[0], v[1], rd)
+            known = known | {v[0]}
     found = found or any(not v.no_input for v in rep.violations)
     bad = vlib.run_shards(ctx, rep, "c19k", HEADER_D, "check", terms, shard=max(1, -(-len(terms) // 12)), timeout=600, case_type="case")
     rep.extra["kernel_shard_cases"] = len(terms)
@@ -665,6 +707,10 @@ def run(ctx, rep):
     report_bad(ctx, rep, "corr_c19g", gbad, gowners, gflagged, found)
     if not ok:
         vlib.broken_obligation(rep, "C19_props", f"{where}\n{out[-1500:]}", found)
+    for k in vlib.load_known():
+        if k.get("property") == "C19" and k.get("status") == "known" and k["signature"] not in known:
+            if any(v.sig == k["signature"] for v in replay(ctx, k["witness"])):
+                known = set(known) | {k["signature"]}
     return tuple(sorted(known))
 
 
@@ -674,15 +720,55 @@ def report_bad(ctx, rep, name, bad, owners, flagged, found):
     elif bad:
         unexplained = [b for b in bad if b not in flagged]
         rep.extra.setdefault("mismatching_cases", []).extend(
-            [{k: (v if k not in ("a", "b") else str(v)[:300]) for k, v in owners[b].items()} for b in bad[:6]])
+            [{k: (v if k not in ("a", "b", "coords") else str(v)[:300]) for k, v in owners[b].items()} for b in bad[:6]])
         if unexplained and not found:
-            vlib.broken_obligation(rep, name, f"{len(unexplained)} case(s) differ from the model although the oracle accepted them, e.g. "
-                                   + json.dumps(owners[unexplained[0]], default=str)[:700], False)
+            # model and implementation disagree although the oracle accepted these inputs: widen the search
+            more = widen(ctx, rep, sorted({owners[b]["kind"] for b in unexplained}))
+            if not more:
+                vlib.broken_obligation(rep, name, f"{len(unexplained)} case(s) differ from the model although the oracle accepted them, e.g. "
+                                       + json.dumps(owners[unexplained[0]], default=str)[:700], False)
+
+
+def widen(ctx, rep, kinds):
+    """oracle only, over a larger fresh sample of the kinds that mismatched; True when a concrete violation was found"""
+    import random
+    sub = vlib.Ctx.__new__(vlib.Ctx)
+    sub.__dict__.update(ctx.__dict__)
+    sub.rng = random.Random(ctx.seed * 7919 + 19)
+    sub.tier = "thorough"
+    hit = False
+    if "kernel" in kinds:
+        exe, _ = build_shim(ctx)
+        ins = kernel_inputs(sub)[:1500]
+        if exe:
+            sel = [i for i in ins if (i["name"][7] not in "fd") or i["name"][7] == i["dt"]]
+            res, _ = run_shim(exe, sel)
+            for inp, obs in zip(sel, res or []):
+                v = judge_kernel(inp, obs, inp["dt"])
+                if v:
+                    hit = True
+                    rep.violate(f"C19:kernel:source:{inp['name']}:{v[0]}", "built from molli_xt/distance.cpp: " + v[1],
+                                dict(kind="kernel", via="shim", name=inp["name"], dt=inp["dt"], exact=inp["exact"], shape1=inp["shape1"], a=inp["a"], b=inp["b"]))
+                    break
+    rest = [k for k in kinds if k != "kernel"]
+    if rest:
+        import molli as ml
+        pool = (grid_inputs(sub) if "grid" in rest else []) + [rd for rd in desc_inputs(sub) if rd["kind"] in rest][:400]
+        for rd in pool:
+            _, viol, _ = run_grid(rd) if rd["kind"] == "grid" else run_desc(ml, rd)
+            if viol:
+                hit = True
+                rep.violate("C19:" + (("grid:" + viol[0]) if rd["kind"] == "grid" else viol[0]), viol[1], rd)
+                break
+    return hit
 
 
 def replay(ctx, data):
     np = np_()
     out = []
+    if data.get("kind") == "last-axis":
+        v = last_axis_probe(data)
+        return [vlib.Violation(v[0], v[1], data)] if v else []
     if data.get("kind") == "grid":
         _, viol, _ = run_grid(data)
         return [vlib.Violation("C19:grid:" + viol[0], viol[1], data)] if viol else []
@@ -707,6 +793,6 @@ def replay(ctx, data):
             if v:
                 sig = f"C19:kernel:ext:{inp['name']}:{v[0]}"
                 if (v[0] == "wrong-value" and inp["dt"] == "d" and inp["name"][7] == "_" and obs[0] == "ok" and obs[3] == "float32" and not obs[4]):
-                    sig = "C19:kernel:ext:float64-strided-input-computed-in-float32"
+                    sig = KNOWN_F32
                 out.append(vlib.Violation(sig, v[1], data))
     return out
